@@ -359,6 +359,68 @@ example : variationOrRollout envUser
 
 end Examples
 
+/-! ## Strengthened statements (theorem audit) -/
+
+/-- Audit #23, scan level: a context that no threshold of `pre ++ [wv]` catches (it is served the
+LAST bucket through the fall-back exit) is, after ANY change of the last bucket's weight, either
+still not caught or caught by exactly that last bucket — never by an earlier one (their thresholds
+are unchanged). -/
+theorem fallback_scan' (b : Rat) (pre : List WeightedVariation) (wv : WeightedVariation) (w' : Int)
+    (s0 : Rat) (h : scanIndex b (pre ++ [wv]) s0 = none) :
+    scanIndex b (pre ++ [{ wv with weight := w' }]) s0 = none ∨
+    scanIndex b (pre ++ [{ wv with weight := w' }]) s0 = some pre.length := by
+  induction pre generalizing s0 with
+  | nil =>
+    simp only [List.nil_append, List.length_nil]
+    rw [scanIndex_cons]
+    split
+    · exact Or.inr rfl
+    · exact Or.inl rfl
+  | cons p pre ih =>
+    simp only [List.cons_append, List.length_cons] at h ⊢
+    rw [scanIndex_cons] at h ⊢
+    split at h
+    · cases h
+    · rename_i hnlt
+      rw [if_neg hnlt]
+      cases hr : scanIndex b (pre ++ [wv])
+          (SoftF32.add s0 (SoftF32.div (SoftF32.ofInt p.weight) 100000)) with
+      | some j => rw [hr] at h; cases h
+      | none =>
+        rcases ih _ hr with h' | h'
+        · rw [h']; exact Or.inl rfl
+        · rw [h']; exact Or.inr rfl
+
+/-- Audit #23: growing (indeed: changing in any way) the weight of the last bucket never moves a
+context that was served it through the fall-back exit out of it.  What `variationOrRolloutResult`
+returns — the scan's answer if there is one, the last bucket otherwise — is the last bucket's
+variation and experiment flag before and after.  Together with `monotone_scan` (contexts the scan put
+into a bucket) this covers every context of a growing bucket. -/
+theorem monotone_fallback (b : Rat) (isExp lk : Bool) (pre : List WeightedVariation)
+    (wv : WeightedVariation) (w' : Int) (h : scanIndex b (pre ++ [wv]) 0 = none) :
+    (rolloutScan b isExp lk (pre ++ [wv]) 0).getD
+        (wv.variation, isExp && !wv.untracked && !lk) =
+      (wv.variation, isExp && !wv.untracked && !lk) ∧
+    (rolloutScan b isExp lk (pre ++ [{ wv with weight := w' }]) 0).getD
+        (wv.variation, isExp && !wv.untracked && !lk) =
+      (wv.variation, isExp && !wv.untracked && !lk) := by
+  constructor
+  · rw [select_spec, h]; rfl
+  · rw [select_spec]
+    rcases fallback_scan' b pre wv w' 0 h with h' | h'
+    · rw [h']; rfl
+    · rw [h']
+      simp [List.getD_eq_getElem?_getD]
+
+-- Non-vacuity: bucket value 3/4 against [50000, 10000] is a fall-back context; growing the last
+-- bucket to 50000 the scan now catches it — in that same last bucket.
+example : scanIndex (3/4) ([half] ++ [tenth]) 0 = none := by decide +kernel
+example : scanIndex (3/4) ([half] ++ [{ tenth with weight := 50000 }]) 0 = some [half].length := by
+  decide +kernel
+example : (rolloutScan (3/4) false false ([half] ++ [{ tenth with weight := 50000 }]) 0).getD
+    (tenth.variation, false && !tenth.untracked && !false) = (2, false) :=
+  (monotone_fallback (3/4) false false [half] tenth 50000 (by decide +kernel)).2
+
 end LD.C07
 
 #print axioms LD.C07.select_spec
@@ -373,3 +435,4 @@ end LD.C07
 #print axioms LD.C07.monotone_scan
 #print axioms LD.C07.segment_monotone
 #print axioms LD.C07.segRuleMatch_monotone
+#print axioms LD.C07.monotone_fallback
